@@ -455,6 +455,61 @@ func RunCase(c Case) (res stats.Result) {
 		}
 	}
 
+	// the same buffer, edited in place, loaded again: what is loaded is what the bytes say NOW
+	// (an application may reuse a read buffer, or patch an image before loading it a second time)
+	if v.violation == "" {
+		f2 := f
+		f2.Items = append([]elfgen.Item(nil), f.Items...)
+		it := f2.Items[target]
+		it.Seed ^= 0x5a5a5a5a // other instruction bytes, same length
+		switch {
+		case it.Kd != nil:
+			kd := *it.Kd
+			kd.KernargSize ^= 16
+			kd.GroupSize ^= 256
+			it.Kd = &kd
+		case it.Hdr != nil:
+			h := *it.Hdr
+			h.KernargSize ^= 16
+			h.GroupSize ^= 256
+			it.Hdr = &h
+		}
+		f2.Items[target] = it
+		file2, lay2, err := elfgen.Build(f2)
+		if err != nil {
+			panic("harness: " + err.Error())
+		}
+		if len(file2) == len(file) && guard(file2, it.Name) == "" {
+			labels["reloaded-after-edit-in-place"] = true
+			// the bytes of the first image are loaded once more through the bytes entry point,
+			// then overwritten in the very same backing array
+			if _, crash := load(file, it.Name, "bytes"); crash != "" && strings.HasPrefix(crash, "harness:") {
+				panic(crash)
+			}
+			copy(file, file2)
+			truth2, err := elfgen.Truth(f2, lay2, target, elfgen.LayoutAMD)
+			if err != nil {
+				panic("harness: " + err.Error())
+			}
+			l2, crash := load(file, it.Name, "bytes")
+			where := fmt.Sprintf("image edited in place and loaded again: load %q (%s, bytes)", it.Name, truth2.Kind)
+			if crash != "" {
+				if strings.HasPrefix(crash, "harness:") {
+					panic(crash)
+				}
+				v.violation = where + ": the loader panicked on a well-formed file: " + crash
+			} else {
+				fields, msg := compare(truth2, l2)
+				var shifted *elfgen.Expected
+				if truth2.Kind == elfgen.KindKd {
+					s2, _ := elfgen.Truth(f2, lay2, target, elfgen.LayoutShifted4)
+					shifted = &s2
+				}
+				v.add(where, fields, msg, shifted, l2)
+			}
+		}
+	}
+
 	// metamorphic variants: the result for the target kernel must not depend on
 	// the symbol order or on the other kernels of the file
 	if v.violation == "" {
